@@ -552,3 +552,84 @@ func c13TwoRoutersOracle(tr *mc.Trace) []h.Violation {
 func init() {
 	register("both", &h.Scenario{Name: "C13-two-router-clients-in-one-process", Prop: "C13", P: 1, F: 0, D: 1, Run: c13TwoRouters(), Check: c13TwoRoutersOracle})
 }
+
+// c13ManySenders: "1..8 concurrent senders": n goroutines each send two messages, all of them queued
+// behind the first transmission's pause when a busy indication arrives (so that the client's worker
+// has to get in line with n waiting senders); every Send returns, and the pause holds between all
+// transmissions.
+func c13ManySenders() func() {
+	return func() {
+		n := 1 + mc.Choose(9, mc.Free) // 1..9 senders
+		sock := fakesock.New("udp")
+		sock.LogHandoff = true
+		r, _ := knx.NewRouterOnSocket(sock, knx.RouterConfig{RetainCount: 4, PostSendPauseDuration: 20 * ms})
+		mc.GoEnv("reader", func() {
+			for {
+				if _, ok := r.Inbound().Recv2(); !ok {
+					return
+				}
+			}
+		})
+		busyAt := []mc.Duration{1 * ms, 10 * ms, 25 * ms}[mc.Choose(3, mc.Free)]
+		mc.GoEnv("router", func() {
+			mc.Sleep(busyAt)
+			deliverBusy(sock, 30, 1)
+		})
+		for s := 0; s < n; s++ {
+			s := s
+			mc.GoEnv(fmt.Sprintf("sender%d", s), func() {
+				for k := 0; k < 2; k++ {
+					id := s*10 + k
+					mc.Log(Call{"Send", id})
+					t0 := mc.Now()
+					err := r.Send(Msg(id))
+					mc.Log(Ret{"Send", id, errStr(err), t0})
+				}
+			})
+		}
+		mc.Sleep(mc.Duration(2*n)*20*ms + 500*ms)
+		mc.Log(Note("horizon"))
+		r.Close()
+	}
+}
+
+func c13ManySendersOracle(tr *mc.Trace) []h.Violation {
+	vs := generic(tr, "C13", true)
+	calls := map[int]mc.Duration{}
+	rets := map[int]bool{}
+	var last mc.Duration
+	seen := false
+	for _, e := range tr.Log {
+		switch x := e.V.(type) {
+		case Call:
+			if x.Call == "Send" {
+				calls[x.ID] = e.T
+			}
+		case Ret:
+			if x.Call == "Send" {
+				rets[x.ID] = true
+			}
+		case fakesock.Sent:
+			if _, ok := x.Svc.(*knxnet.RoutingInd); ok && x.Err == nil {
+				if seen && e.T-last < 20*ms {
+					vs = append(vs, h.Violation{Class: "C13:many-senders:pause-violated", Msg: fmt.Sprintf("%d senders: transmissions at %v and %v, post-send pause 20 ms", len(calls)/2, last, e.T)})
+				}
+				seen, last = true, e.T
+			}
+		}
+	}
+	if tr.Reason != "main-returned" {
+		return vs
+	}
+	for id, t := range calls {
+		if !rets[id] {
+			vs = append(vs, h.Violation{Class: "C13:many-senders:send-never-returned", Msg: fmt.Sprintf("%d senders x 2 messages, a busy indication (30 ms) while they were queued: Send(%d), called at %v, had not returned 500 ms after the last transmission was due", len(calls)/2, id, t)})
+			break
+		}
+	}
+	return vs
+}
+
+func init() {
+	register("both", &h.Scenario{Name: "C13-1..9-senders-queued-when-a-busy-indication-arrives", Prop: "C13", P: 0, F: 0, D: -1, Run: c13ManySenders(), Check: c13ManySendersOracle})
+}
